@@ -16,6 +16,14 @@ Theorem C17_should_rename_is_the_length_test : forall refs old_len new_len old_m
   should_rename_name refs old_len new_len old_m new_m add = true <-> old_m * old_len + new_m * new_len + add <= refs * old_len.
 Proof. exact should_rename_name_sound. Qed.
 Print Assumptions C17_should_rename_is_the_length_test.
+(* the per-reference accounting of Binding.additional_byte_cost / old_mention_count / new_mention_count (Model/Cost.v,
+   compared with the real methods on real binding tables by leg K) is EXACT on the lexeme level: should_rename approves a
+   rename exactly when the identifiers, the ` as ` of every import that gains one, and the inserted `new=old` + newline
+   together are not longer than the identifiers they replace *)
+Theorem C17_cost_accounting_exact : forall refs old_len new_len, simple_refs refs = true ->
+  (should_rename_refs refs old_len new_len = true <-> text_after refs old_len new_len <= text_before refs old_len).
+Proof. exact should_rename_refs_exact. Qed.
+Print Assumptions C17_cost_accounting_exact.
 (* folding: a node is replaced only by a strictly shorter text (any printer / interpreter) *)
 Theorem C17_fold_strictly_shorter : forall pr ev reparse_ok repr_fails l o r,
   try_fold pr ev reparse_ok repr_fails l o r = Bin l o r \/
